@@ -41,8 +41,10 @@ def is_nan_row(r):
     return r[0] is None or r[1] is None
 
 
-def run_fit(rows, weighting, cw):
-    """real pewlib on one variant; observation points: gradient, intercept, rsq, error, weights"""
+def run_fit(rows, weighting, cw, prior=False):
+    """real pewlib on one variant; observation points: gradient, intercept, rsq, error, weights.
+    prior=True: the same fit reached through a history - an object that already holds a (non-identity) line and fit
+    statistics gets these points and weights assigned and is refitted with update_linreg()."""
     from pewlib.calibration import Calibration
 
     pts = np.array([[nan(x), nan(y)] for x, y in rows], dtype=np.float64).reshape(-1, 2)
@@ -51,7 +53,14 @@ def run_fit(rows, weighting, cw):
         warnings.simplefilter("ignore")
         with np.errstate(all="ignore"):
             try:
-                cal = Calibration.from_points(pts, weights=wts)
+                if prior:
+                    cal = Calibration(intercept=3.25, gradient=7.5, rsq=0.5, error=2.0,
+                                      points=np.array([[1.0, 2.0], [2.0, 5.0], [4.0, 7.0]]), weights="Equal")
+                    cal.points = pts
+                    cal.weights = wts
+                    cal.update_linreg()
+                else:
+                    cal = Calibration.from_points(pts, weights=wts)
                 return {
                     "gradient": fnum(cal.gradient) if cal.gradient is not None else None,
                     "gradient_nan": isinstance(cal.gradient, float) and math.isnan(cal.gradient),
@@ -314,8 +323,9 @@ class C06(Prop):
         undet = bool(fitted and hyp and rho < RHO_MIN)
         impl, model, spec = [], [], []
         spec_ok = model_ok = True
+        variants.append(("refit", rows, cw))
         for name, vrows, vcw in variants:
-            got = run_fit(vrows, weighting, vcw)
+            got = run_fit(vrows, weighting, vcw, prior=(name == "refit"))
             rep = base if name == "clean" else drv_fit(ctx, vrows, weighting, vcw)
             mv = fit_view(rep, "model")
             impl.append(got)
